@@ -264,7 +264,7 @@ def _run2(seed, tape, opts, w):
     # `wormhole receive` in the same directory, say) creates the announced
     # destination as a directory / a file
     env = tape.pick(("none", "none", "none", "mkdir", "file"), "env") \
-        if kind == "file" and not dest_preexisted else "none"
+        if not dest_preexisted else "none"
     env_paths = set()
     env_state = {"left": None}
 
@@ -272,7 +272,11 @@ def _run2(seed, tape, opts, w):
         if env == "none" or env_state["left"] == -1:
             return
         if env_state["left"] is None:
-            if os.path.exists(dest_tmp) and not tmp_preexisted:
+            started = (os.path.exists(dest_tmp) and not tmp_preexisted) \
+                if kind == "file" else any(
+                    l.ends[0].rx_count + l.ends[1].rx_count > 200
+                    for l in getattr(w, "transit_links", []))
+            if started:
                 env_state["left"] = tape.choose(40, "env_after")
             return
         if env_state["left"] > 0:
@@ -334,20 +338,35 @@ def _run2(seed, tape, opts, w):
         # the receiver then changed or removed it
         for k in list(changed):
             if k in env_paths and after.get(k) is not None and (
-                    after[k][0] == "dir" or after[k][1] in (
+                    (after[k][0] == "dir" and env == "mkdir") or
+                    after[k][1] in (
                         b"belongs to the other session",
                         b"written by someone else")):
                 changed.remove(k)
         for k in sorted(env_paths):
             a = after.get(k)
-            if a is None or (a[0] == "file" and a[1] not in (
-                    b"belongs to the other session",
-                    b"written by someone else")):
+            if a is None or (a[0] == "dir" and env == "file") or (
+                    a[0] == "file" and a[1] not in (
+                        b"belongs to the other session",
+                        b"written by someone else")):
                 if env == "mkdir":
                     V("C05.directory_deleted", "an existing directory is "
                       "never deleted (nor its content replaced)",
                       "%r, created by someone else during the transfer, was "
                       "%s" % (k, "removed" if a is None else "overwritten"))
+                elif kind == "directory" and (
+                        output_file is None or os.path.abspath(
+                            os.path.join(cwd, output_file)) != dest):
+                    # (when --output-file names the destination itself the
+                    # user asked for it to be replaced; for a file offer the final rename replaces whatever
+                    # sits there - inherent; unpacking a directory has no
+                    # business deleting a file)
+                    V("C05.existing_file_replaced", "an existing file is "
+                      "replaced only when --output-file names it or the "
+                      "existing directory containing it",
+                      "%r, a file somebody else put at the destination while "
+                      "the directory was being received, was deleted / "
+                      "replaced" % (k,))
     for k in sorted(changed):
         b, a = before.get(k), after.get(k)
         if allowed(k) and k != rel_dest and b is not None and b[0] != "dir":
